@@ -444,3 +444,97 @@ func replayConfirms(outcome string) bool {
 	f := strings.Fields(outcome)
 	return len(f) >= 2 && (f[1] == "FAILED" || f[1] == "PANIC")
 }
+
+// SelfTest runs the given cases natively (random inputs) in one go test invocation per (config, package).
+// Returns number of native runs, and mismatch descriptions.
+func SelfTest(prop string, cases []Case, tries int, workDir string) (int, []string) {
+	type key struct{ cfg, pkg string }
+	groups := map[key][]Case{}
+	for _, c := range cases {
+		k := key{c.Config, c.Pkg}
+		groups[k] = append(groups[k], c)
+	}
+	pkgs := harnessPkgs()
+	var mu sync.Mutex
+	var wg sync.WaitGroup
+	runs := 0
+	var bad []string
+	gi := 0
+	for k, cs := range groups {
+		gi++
+		wg.Add(1)
+		go func(k key, cs []Case, gi int) {
+			defer wg.Done()
+			dir := filepath.Join(workDir, fmt.Sprintf("self%d", gi))
+			os.MkdirAll(dir, 0o755)
+			ov, err := overlayFor(k.cfg, pkgs, true)
+			if err != nil {
+				mu.Lock()
+				bad = append(bad, "selftest overlay: "+err.Error())
+				mu.Unlock()
+				return
+			}
+			repl := map[string]string{}
+			i := 0
+			for virt, content := range ov {
+				if !strings.HasPrefix(virt, filepath.Join(RepoRoot, k.pkg)+"/") {
+					continue
+				}
+				real := filepath.Join(dir, fmt.Sprintf("ov%d_%s", i, filepath.Base(virt)))
+				i++
+				os.WriteFile(real, content, 0o644)
+				repl[virt] = real
+			}
+			ovj, _ := json.Marshal(map[string]interface{}{"Replace": repl})
+			ovPath := filepath.Join(dir, "overlay.json")
+			os.WriteFile(ovPath, ovj, 0o644)
+			var list []string
+			names := map[string]string{}
+			for j, c := range cs {
+				rf := &ReplayFile{Property: prop, Harness: c.Harness, Pkg: c.Pkg, Config: c.Config, Params: c.Params, Model: map[string]string{}}
+				b, _ := json.Marshal(rf)
+				fp := filepath.Join(dir, fmt.Sprintf("case%d.json", j))
+				os.WriteFile(fp, b, 0o644)
+				list = append(list, fp)
+				names[fp] = c.Key()
+			}
+			listPath := filepath.Join(dir, "list.txt")
+			os.WriteFile(listPath, []byte(strings.Join(list, "\n")+"\n"), 0o644)
+			args := []string{"test", "-vet=off", "-count=1", "-v", "-overlay", ovPath, "-run", "^TestVerifSelf$", "-timeout", "600s"}
+			if t := tagsFor(k.cfg); t != "" {
+				args = append(args, "-tags", t)
+			}
+			args = append(args, "./"+k.pkg)
+			cmd := exec.Command("go", args...)
+			cmd.Dir = RepoRoot
+			cmd.Env = append(os.Environ(), "GOFLAGS=-mod=mod", "GOPROXY=off", "GOSUMDB=off", "GOTOOLCHAIN=local",
+				"VERIF_REPLAY_LIST="+listPath, fmt.Sprintf("VERIF_REPLAY_TRIES=%d", tries))
+			out, err := cmd.CombinedOutput()
+			n := 0
+			var localBad []string
+			for _, l := range strings.Split(string(out), "\n") {
+				if !strings.HasPrefix(l, "VERIF-SELF:") {
+					continue
+				}
+				f := strings.Fields(l)
+				if len(f) >= 4 && strings.HasPrefix(f[1], "file=") {
+					n++
+					if f[3] == "FAILED" || f[3] == "PANIC" {
+						localBad = append(localBad, fmt.Sprintf("native run of %s on random inputs: %s", names[strings.TrimPrefix(f[1], "file=")], strings.Join(f[3:], " ")))
+					}
+				} else {
+					localBad = append(localBad, "selftest: "+l)
+				}
+			}
+			if n == 0 {
+				localBad = append(localBad, fmt.Sprintf("selftest of %s/%s produced no runs (%v): %s", k.cfg, k.pkg, err, tail(string(out), 15)))
+			}
+			mu.Lock()
+			runs += n
+			bad = append(bad, localBad...)
+			mu.Unlock()
+		}(k, cs, gi)
+	}
+	wg.Wait()
+	return runs, bad
+}
